@@ -33,6 +33,9 @@ CHECKS = {
  'C11': ('exploration', 'generator-ground-truth monitor: yaml.Encode -> yaml.Extract -> evaluate compared with the tree that was encoded; failing trees are shrunk to the single strings/keys that fail on their own; JSON documents through the YAML decoder; yaml.Marshal/Unmarshal builtins; two independent YAML libraries as recorded second opinions',
    '30k/600k trees with the adversarial string pool (incl. multi-line strings with blank, tab-only and padded lines) as scalars and keys through the default (goccy) implementation; the yaml.v3 implementation (CUE_EXPERIMENT=yamlgoccy=0) runs in a recorded, non-alarming stream.',
    'The yaml.v3 path is not alarmed (not the default since v0.18). One recorded finding (tab as JSON whitespace refused by the YAML parser).', 'DESIGN.md §4 C11'),
+ 'C12': ('exploration', 'runtime monitoring of the real cue binary (built from the working tree, private directory/HOME/cache per case): exit status, stdout and produced files of every export/import invocation compared with the ground truth the data generator carries',
+   '300/6000 concrete packages (adversarial string pool, big and exponent numbers, TOML-shaped packages with prefix-related keys, arrays of tables, dotted/quoted keys) x ~15 invocations: export --out json (file, package, -e, --escape), export to json/yaml/toml/cue via --out, -o file.ext and -o enc:file, import, export --out json; failing packages x 4 encodings; TOML-unrepresentable values must be refused.',
+   'Strings with U+FEFF are left to C10 (recorded there). One genuine defect repaired (fix: TOML encoder refuses null / out-of-range numbers).', 'DESIGN.md §4 C12'),
  'C13': ('exploration', 'independent-oracle monitor: every (schema, instance) verdict of the generated CUE is compared with python-jsonschema (Draft 2020-12) running in a pool of child processes; the schema generated back by jsonschema.Generate is judged by the same oracle; every disagreement is shrunk to a minimal schema and keyed by root-cause class or keyword set and direction',
    '2.5k/40k schemas of a frozen stream over the whole keyword list (its disagreement classes on the pinned tree are all recorded, a new class is a violation) + 2.5k/60k seed-dependent schemas of the fragment without recorded disagreements, 14 schema-guided and random instances each, both directions.',
    'Trusts python-jsonschema; regular expressions and numbers restricted to the common subset. 24 recorded disagreement classes (the importer itself lists several in its external-test skip lists). Import errors are counted as unsupported.', 'DESIGN.md §4 C13'),
